@@ -27,7 +27,8 @@ func (pass *SanitizeEnumMemberNames) processEnum(_ *Visitor, _ *ast.Schema, def 
 }
 
 func (pass *SanitizeEnumMemberNames) sanitizeEnumMember(member ast.EnumValue) ast.EnumValue {
-	if member.Type.Scalar.ScalarKind == ast.KindString && member.Name == "" && member.Value.(string) == "" {
+	if member.Name == "" {
+		// typically: the empty string
 		member.Name = "None"
 	}
 
